@@ -156,38 +156,52 @@ where
             ));
             break;
         }
-        // expand the level in parallel
-        let expanded: Vec<Vec<(M::Action, M::State, u64)>> = frontier
-            .par_iter()
-            .map(|s| {
-                let mut acts = Vec::new();
-                model.actions(s, &mut acts);
-                let mut out = Vec::with_capacity(acts.len());
-                for a in acts {
-                    if let Some(n) = model.next_state(s, a.clone()) {
-                        // same semantics as stateright: successors outside the boundary are dropped
-                        if !model.within_boundary(&n) {
-                            continue;
-                        }
-                        let fp = fingerprint(&n);
-                        out.push((a, n, fp));
-                    }
-                }
-                out
-            })
-            .collect();
+        // expand the level in parallel, chunk by chunk: successors that are already known are
+        // dropped inside the parallel phase and each chunk is merged before the next is expanded,
+        // so memory is bounded by (chunk size x branching), not (level size x branching)
         let mut next = Vec::new();
-        for (i, succs) in expanded.into_iter().enumerate() {
-            let pfp = fingerprint(&frontier[i]);
-            for (a, n, fp) in succs {
-                transitions += 1;
-                if parents.contains_key(&fp) {
-                    continue;
+        const CHUNK: usize = 8192;
+        let mut offset = 0;
+        while offset < frontier.len() {
+            let end = (offset + CHUNK).min(frontier.len());
+            let known = &parents;
+            let expanded: Vec<(u64, Vec<(M::Action, M::State, u64)>)> = frontier[offset..end]
+                .par_iter()
+                .map(|s| {
+                    let mut acts = Vec::new();
+                    model.actions(s, &mut acts);
+                    let mut out = Vec::new();
+                    let mut n = 0u64;
+                    for a in acts {
+                        if let Some(st) = model.next_state(s, a.clone()) {
+                            // same semantics as stateright: successors outside the boundary are dropped
+                            if !model.within_boundary(&st) {
+                                continue;
+                            }
+                            n += 1;
+                            let fp = fingerprint(&st);
+                            if known.contains_key(&fp) {
+                                continue;
+                            }
+                            out.push((a, st, fp));
+                        }
+                    }
+                    (n, out)
+                })
+                .collect();
+            for (i, (n, succs)) in expanded.into_iter().enumerate() {
+                let pfp = fingerprint(&frontier[offset + i]);
+                transitions += n;
+                for (a, st, fp) in succs {
+                    if parents.contains_key(&fp) {
+                        continue;
+                    }
+                    parents.insert(fp, Some((pfp, a)));
+                    check(&st, fp, &parents, &mut violations, &mut sometimes);
+                    next.push(st);
                 }
-                parents.insert(fp, Some((pfp, a)));
-                check(&n, fp, &parents, &mut violations, &mut sometimes);
-                next.push(n);
             }
+            offset = end;
         }
         depth += 1;
         if !next.is_empty() {
